@@ -134,7 +134,7 @@ theorem addFlagPos_inexact (k O : Nat) (t : Int8) (h : O % 10 ^ k ≠ 0) :
       rw [if_pos h2, if_neg (fun h1 => h (this.mpr ⟨h1, h2⟩))]
     · left; rw [if_neg h2]
 
-theorem val_eq (x : Gen.decomposed192) : val x = (x.sig.toNat : ℚ) * (10 : ℚ) ^ x.exp.toInt := rfl
+theorem val_eq_zpow (x : Gen.decomposed192) : val x = (x.sig.toNat : ℚ) * (10 : ℚ) ^ x.exp.toInt := rfl
 
 /-- `decomposed192.add`, rational contract. -/
 theorem add_contract (d o : Gen.decomposed192) (t : Int8)
@@ -163,7 +163,7 @@ theorem add_contract (d o : Gen.decomposed192) (t : Int8)
     have := branch_contract (t := t) (fun x => x = 1) rfl (U192.toNat_lt d.sig) hlt
       (show o.exp.toInt = d.exp.toInt + j + k by omega) he0 (by omega) hprec
       (fun h => by rw [if_pos h]) (fun h => by rw [if_neg h]) htr
-    simp only [← val_eq] at this
+    simp only [← val_eq_zpow] at this
     obtain ⟨h1, h2, h3, h4, h5, h6, h7⟩ := this
     refine ⟨h1, h2, h3, fun h => Or.inl (h4 h), fun _ h => h4 h, ?_, ?_, ?_⟩
     · rw [min_eq_left (by omega)]; exact h5
@@ -179,7 +179,7 @@ theorem add_contract (d o : Gen.decomposed192) (t : Int8)
     have := branch_contract (t := t) (fun x => x = 1 ∨ x = -1) (Or.inl rfl) (U192.toNat_lt o.sig) hlt
       (show d.exp.toInt = o.exp.toInt + j + k by omega) he0 (by omega) hprec
       (addFlagPos_exact k _ t (U192.toNat_lt _)) (addFlagPos_inexact k _ t) htr
-    simp only [← val_eq] at this
+    simp only [← val_eq_zpow] at this
     rw [add_comm (val o) (val d)] at this
     obtain ⟨h1, h2, h3, h4, h5, h6, h7⟩ := this
     refine ⟨h1, h2, h3, h4, fun hle => by omega, ?_, ?_, ?_⟩
@@ -194,7 +194,7 @@ theorem add_contract (d o : Gen.decomposed192) (t : Int8)
       (U192.toNat_lt d.sig) (by simpa using U192.toNat_lt o.sig)
       (show o.exp.toInt = d.exp.toInt + (0 : Nat) + (0 : Nat) by omega) (by simp) (by omega)
       (Or.inl rfl) (fun _ => rfl) (fun h => absurd (Nat.mod_one _) h) htr'
-    simp only [← val_eq] at this
+    simp only [← val_eq_zpow] at this
     obtain ⟨h1, h2, h3, h4, h5, h6, h7⟩ := this
     refine ⟨h1, h2, h3, fun h => Or.inl (h4 h), fun _ h => h4 h, ?_, ?_, ?_⟩
     · rw [min_eq_left (by omega)]; exact h5
